@@ -566,6 +566,22 @@ def run(ctx):
                     if found is None:
                         found = {"case": harness_line(0, c, be, 1), "verdict": "result depends on the previous content of scratch"}
         ctx.cov["ops_histogram"] = hist
+        sh = {}
+        def bump(k):
+            sh[k] = sh.get(k, 0) + 1
+        for c in cases:
+            ck = class_key(c)
+            bump(f"dsize={c['dsize']}")
+            bump("a_size%dsize!=0" if ck[5] else "a_size%dsize==0")
+            bump("dnum" + ck[6] + "needed")
+            bump("radix in" + ck[7] + "key,out" + ck[8] + "key")
+            bump("result" + ck[9] + "input")
+            bump("cls=" + c["cls"])
+            bump(f"N={c['n']}")
+            bump(f"ranks={c['rin']}->{c['rout']}")
+            bump("ntt-only-radix" if not in_fft_domain(c) or c["bkey"] > 17 else "all-back-ends")
+        ctx.cov["shape_histogram"] = dict(sorted(sh.items()))
+        ctx.cov["cases"] = len(cases)
         ctx.cov["model_runs"] = len(mlines)
         ctx.cov["dirty_twins"] = sum(1 for m in meta if m[2])
         ctx.cov["stale_res_dft_cases"] = len(stale)
